@@ -13,10 +13,14 @@ Rec == ndJsonDeserialize(IOEnv.TRACE)
 VARIABLES l,        \* next line of Rec
           viol,     \* <<line, case, invariant>> of every Level-A failure
           stats,
-          steps,    \* accepted call-by-call steps of the current case: <<[pub, p, e, soc]>> (compared with walk)
+          l0,       \* line of the current case's begin event (walk records refer to call-by-call records by offset)
+          rep,      \* invariant names already reported in the current case (each is reported once per case)
+          nk,       \* cases in which the known class AuxCurtailed (F-C01-1) has been reported; beyond KnownCap they are
+                    \* only counted (stats.curtailed) - `viol` is part of every state, its size is paid on every line
           pex,      \* the last accepted record was exact
           drifts    \* first few drift samples
-tvars == <<vars, l, viol, stats, steps, pex, drifts>>
+tvars == <<vars, l, viol, stats, l0, rep, nk, pex, drifts>>
+KnownCap == 250
 
 Stat0 == [cases |-> 0, pubs |-> 0, accepted |-> 0, rejected |-> 0, hist |-> 0, exact |-> 0, inexact |-> 0,
           b_checked |-> 0, drift_pub |-> 0, drift_ok |-> 0, drift_val |-> 0, walk_diff |-> 0, walk_fail |-> 0,
@@ -25,13 +29,16 @@ DummyCfg == [kind |-> "conv", rfc |-> 1, rgen |-> 1, redrv |-> 1, rres |-> 1, fl
              auxkd |-> 0, idle |-> 0, kf |-> 1, kg |-> 1, ke |-> 1, kr |-> 1, flat |-> TRUE, cap |-> 16, smin |-> 0,
              slo |-> 0, shi |-> 16, smax |-> 16, delta |-> 1, ps |-> 1, ds |-> 1, lat |-> FALSE, assert |-> TRUE]
 
-TInit == /\ l = 1 /\ viol = <<>> /\ stats = Stat0 /\ steps = <<>> /\ pex = TRUE /\ drifts = <<>>
+TInit == /\ l = 1 /\ viol = <<>> /\ stats = Stat0 /\ l0 = 1 /\ rep = {} /\ nk = 0 /\ pex = TRUE /\ drifts = <<>>
          /\ cfg = DummyCfg /\ soc0 = 0 /\ soc = 0 /\ psoc = 0
          /\ pc = "aux" /\ st = ZeroSt /\ pub = ZeroPub /\ p = Zero /\ e = Zero /\ pe = Zero /\ eta = Eta1
          /\ gap = 0 /\ safe = TRUE /\ ex = TRUE /\ i = 1 /\ n = 0 /\ hist = <<>>
 
 Names(checks) == LET F == SelectSeq(checks, LAMBDA c : ~c[2]) IN [k \in 1..Len(F) |-> F[k][1]]
-Report(names) == viol' = viol \o [k \in 1..Len(names) |-> <<l, Rec[l].case, names[k]>>]
+Report(names0) == LET names == SelectSeq(names0, LAMBDA x : x \notin rep /\ (x = "AuxCurtailed" => nk < KnownCap)) IN
+                  /\ viol' = viol \o [k \in 1..Len(names) |-> <<l, Rec[l].case, names[k]>>]
+                  /\ rep' = rep \cup {names[k] : k \in 1..Len(names)}
+                  /\ nk' = nk + (IF \E k \in 1..Len(names) : names[k] = "AuxCurtailed" THEN 1 ELSE 0)
 Bump(fs) == stats' = [f \in DOMAIN stats |-> stats[f] + (IF f \in DOMAIN fs THEN fs[f] ELSE 0)]
 B(c) == IF c THEN 1 ELSE 0
 Note(tag, info) == drifts' = IF Len(drifts) < 8 THEN Append(drifts, [line |-> l, case |-> Rec[l].case, what |-> tag, info |-> info])
@@ -43,9 +50,9 @@ Reset(r) == /\ soc' = soc0' /\ psoc' = soc0'
 
 Begin == /\ Rec[l].ev = "begin"
          /\ cfg' = Rec[l].desc.cfg /\ soc0' = Rec[l].desc.soc0
-         /\ Reset(Rec[l]) /\ steps' = <<>>
+         /\ Reset(Rec[l]) /\ l0' = l /\ rep' = {}
          /\ Bump([cases |-> 1])
-         /\ UNCHANGED <<viol, drifts>>
+         /\ UNCHANGED <<viol, nk, drifts>>
 
 (* Level-A conjuncts evaluated on a state where limits have just been published *)
 PubChecks == << <<"Ramp", Ramp'>>, <<"PublishedSane", PublishedSane'>> >>
@@ -68,7 +75,7 @@ Pub == /\ Rec[l].ev = "Pub"
        /\ pub' = Rec[l].pub
        /\ pc' = "solve"
        /\ ex' = (Rec[l].exact /\ pex)
-       /\ UNCHANGED <<cfg, p, e, pe, eta, soc, psoc, soc0, gap, safe, i, n, hist, steps, pex>>
+       /\ UNCHANGED <<cfg, p, e, pe, eta, soc, psoc, soc0, gap, safe, i, n, hist, l0, pex>>
        /\ Report(Names(PubChecks))
        /\ LET chk == cfg.lat /\ ex'
               bad == IF chk THEN pub' # PubOf(cfg, AuxOf(cfg, Rec[l].eng, p.out), p.brake, soc, Rec[l].dtq) ELSE FALSE
@@ -99,16 +106,18 @@ SolveAcc == /\ Rec[l].ev = "Solve" /\ Rec[l].acc
             /\ safe' = (safe /\ (cfg.kind = "bel" => DtSafeOk(st.dtq)))
             /\ ex' = (Rec[l].exact /\ ex) /\ pex' = ex'
             /\ i' = Rec[l].i /\ n' = n + 1
-            /\ steps' = IF Rec[l].walk THEN steps ELSE Append(steps, [pub |-> pub, p |-> p', e |-> e', soc |-> soc'])
-            /\ UNCHANGED <<cfg, pub, soc0, hist>>
+            /\ UNCHANGED <<cfg, pub, soc0, hist, l0>>
             /\ Report(Names(AccChecks))
             /\ LET chk == cfg.lat /\ ex'
                    m   == SolveOf(cfg, pub, Rec[l].req, st.eng, soc)
                    bok == IF chk THEN ~m.ok ELSE FALSE
                    bvl == IF chk THEN (IF m.ok THEN DiffersFrom(m.p, m.chem, Rec[l].walk) ELSE FALSE) ELSE FALSE
                    k   == Rec[l].k
+                   cb  == l0 + Rec[l].ref          \* the call-by-call record of the same step (its Pub is the line before)
                    wd  == IF Rec[l].walk
-                          THEN (IF k <= Len(steps) THEN steps[k] # [pub |-> pub, p |-> p', e |-> e', soc |-> soc'] ELSE TRUE)
+                          THEN (IF Rec[cb].ev = "Solve" /\ Rec[cb - 1].ev = "Pub"
+                                THEN \/ Rec[cb].p # p' \/ Rec[cb].e # e' \/ Rec[cb].soc # soc' \/ Rec[cb - 1].pub # pub
+                                ELSE TRUE)
                           ELSE FALSE
                IN /\ Bump(AccStats(Rec[l]) @@ [b_checked |-> B(chk), drift_ok |-> B(bok), drift_val |-> B(bvl), walk_diff |-> B(wd)])
                   /\ IF bok THEN Note("accepted-but-model-rejects", [req |-> Rec[l].req, pub |-> pub])
@@ -120,7 +129,7 @@ SolveAcc == /\ Rec[l].ev = "Solve" /\ Rec[l].acc
 SolveRej == /\ Rec[l].ev = "Solve" /\ ~Rec[l].acc
             /\ st' = [st EXCEPT !.req = Rec[l].req, !.acc = FALSE]
             /\ pc' = "aux" /\ n' = n + 1
-            /\ UNCHANGED <<cfg, pub, p, e, pe, eta, soc, psoc, soc0, gap, safe, ex, i, hist, steps, pex, viol>>
+            /\ UNCHANGED <<cfg, pub, p, e, pe, eta, soc, psoc, soc0, gap, safe, ex, i, hist, l0, rep, nk, pex, viol>>
             /\ LET chk == cfg.lat /\ ex /\ Rec[l].exact
                    bok == IF chk THEN SolveOf(cfg, pub, Rec[l].req, st.eng, soc).ok ELSE FALSE
                IN /\ Bump([rejected |-> 1, b_checked |-> B(chk), drift_ok |-> B(bok)])
@@ -130,21 +139,21 @@ SolveRej == /\ Rec[l].ev = "Solve" /\ ~Rec[l].acc
 (* the same accepted steps again, through LocomotiveSimulation::walk *)
 WalkBegin == /\ Rec[l].ev = "WalkBegin"
              /\ soc0' = soc0 /\ Reset(Rec[l])
-             /\ UNCHANGED <<cfg, steps, viol, stats, drifts>>
+             /\ UNCHANGED <<cfg, l0, rep, nk, viol, stats, drifts>>
 
 WalkEnd == /\ Rec[l].ev = "WalkEnd"
            /\ Bump([walk_fail |-> B(~Rec[l].ok \/ Rec[l].n # Rec[l].want)])
-           /\ UNCHANGED <<vars, viol, steps, pex, drifts>>
+           /\ UNCHANGED <<vars, viol, l0, rep, nk, pex, drifts>>
 
 (* a NaN / a value beyond the Q range in a component state, a failed publication, a panic *)
 Broken == /\ Rec[l].ev \in {"Nan", "Overflow", "PubErr", "panic", "abort", "timeout"}
           /\ Report(<< CASE Rec[l].ev = "Nan" -> "NoNaN" [] Rec[l].ev = "Overflow" -> "InRange"
                          [] Rec[l].ev = "PubErr" -> "PublishOk" [] OTHER -> "NoPanic" >>)
-          /\ UNCHANGED <<vars, stats, steps, pex, drifts>>
+          /\ UNCHANGED <<vars, stats, l0, pex, drifts>>
 
 End == /\ Rec[l].ev = "end"
-       /\ IF Rec[l].result = "harness_err" THEN Report(<<"HarnessOk">>) ELSE UNCHANGED viol
-       /\ UNCHANGED <<vars, stats, steps, pex, drifts>>
+       /\ IF Rec[l].result = "harness_err" THEN Report(<<"HarnessOk">>) ELSE UNCHANGED <<viol, rep, nk>>
+       /\ UNCHANGED <<vars, stats, l0, pex, drifts>>
 
 TNext == /\ l <= Len(Rec) /\ l' = l + 1
          /\ (Begin \/ Pub \/ SolveAcc \/ SolveRej \/ WalkBegin \/ WalkEnd \/ Broken \/ End)
